@@ -55,7 +55,10 @@ func init() {
 			if o, isPtr := a.e[i].(Ptr); isPtr && o.IsNil() {
 				return Iface{} // no options: nothing to explore
 			}
-			in.abort("exploreCustomOptions: descriptor has options (protobuf reflection is not interpreted)")
+			// The descriptor has options: run the real body. With WithExcludeCustomOptions() it returns before
+			// touching reflection (the C12 lemmas); otherwise the path ends at the reflective call as before.
+			in.bypass = fn
+			return in.call(fn, args, nil)
 		}
 		in.abort("exploreCustomOptions: descriptor type %s has no Options field", desc.t)
 		return nil
